@@ -453,14 +453,18 @@ class Switch(Sub):
         for target in SW_POOL:
             for n in (1, 2, 3):
                 for cs in itertools.product(SW_POOL, repeat=n):
-                    for dflt in (False, True):
+                    for dflt in (False, True, 'eq'):
                         for si in range(len(SENT_SW)):
+                            if dflt == 'eq' and si:
+                                continue
                             for mode in ('var', 'lit'):
                                 yield [target, list(cs), dflt, si, mode]
 
     def check(self, env, case):
         target, cs, dflt, si, mode = case
         results, dval = SENT_SW[si]
+        if dflt == 'eq':
+            dval = target       # a default that happens to equal the target is still only the default
         n = len(cs)
         vs = {}
         if mode == 'var':
